@@ -3,7 +3,10 @@ package checks
 import (
 	"fmt"
 	"math/rand/v2"
+	"os/exec"
+	"path/filepath"
 	"regexp"
+	"strconv"
 	"strings"
 
 	"verif/harness/core"
@@ -134,9 +137,40 @@ func runRef(c *core.Ctx, ck *Check, specs []*refSpec) {
 	})
 }
 
+// calibModel names the calib/run.sh model whose executable reference (dpkg, packaging, maven-artifact,
+// node-semver) is consulted at thorough tier when present in the image.
+var calibModel = map[string]string{"C08": "semver", "C09": "pep440", "C10": "dpkg", "C12": "maven"}
+
+// modelVsExecutable pushes a seed-determined sample of generator pairs through the executable reference. A
+// disagreement is a defect of the MODEL (the oracle), never of go-univers: the run becomes inconclusive.
+func modelVsExecutable(c *core.Ctx, id string) {
+	m, ok := calibModel[id]
+	if !ok || c.Quick() {
+		return
+	}
+	n := "20000"
+	if m == "dpkg" {
+		n = "4000" // three process spawns per pair
+	}
+	cmd := exec.Command(filepath.Join(c.Dir, "calib", "run.sh"), m, n, strconv.FormatUint(c.Seed, 10))
+	out, err := cmd.CombinedOutput()
+	text := string(out)
+	re := regexp.MustCompile(`pairs ([0-9]+) disagreements ([0-9]+)`)
+	mm := re.FindStringSubmatch(text)
+	if err != nil || mm == nil {
+		c.Note("model_vs_executable", "skipped: reference executable for "+m+" not available or failed: "+trunc(text, 200))
+		return
+	}
+	c.Note("model_vs_executable_pairs", mm[1])
+	c.Note("model_vs_executable_disagreements", mm[2])
+	if mm[2] != "0" {
+		c.Inconclusive("reference model " + m + " disagrees with its executable on " + mm[2] + " of " + mm[1] + " pairs (oracle defect): " + trunc(text, 400))
+	}
+}
+
 func mkRefCheck(id, rule string, assumptions []string, specs []*refSpec) *Check {
 	ck := &Check{ID: id, Rule: rule, Assumptions: assumptions, MinEvals: 50000}
-	ck.Run = func(c *core.Ctx) { runRef(c, ck, specs) }
+	ck.Run = func(c *core.Ctx) { runRef(c, ck, specs); modelVsExecutable(c, id) }
 	ck.Eval = func(c *core.Ctx, e *eco.Eco, op string, args []string) []core.Violation {
 		if e == nil || len(args) < 2 {
 			return nil
